@@ -1,4 +1,154 @@
-use crate::ops::RunDesc;
+//! AGE-SWEEP (C12): directed sweep of stamp ages at the real decision site. A grandparent G
+//! (released by thread A whose deferred attempt stays in A's *local* bag until A flushes) owns
+//! P, which owns C. Thread B writes the stamp under test at ticker round tB (drops an extra
+//! owner of P or C, and/or rewrites the link P->C through P's extra owner), A flushes at round
+//! tF, so the cascade from G runs about 3 rounds later and sees stamp ages from 0 to beyond
+//! several wraps of the 4-bit field. The shadow model knows every stamp at full width; the
+//! oracle in c12.rs judges each immediate/deferred decision.
+
+use crate::gen::ticker_ops;
+use crate::json::J;
+use crate::ops::*;
+use crate::rng::Rng;
+
+fn o(k: K, a: u32, b: u32, c: u32, d: u32) -> Op {
+    op(k, a, b, c, d)
+}
+
 pub fn gen(prop: &str, seed: u64) -> RunDesc {
-    crate::gen::gen_interp_run(prop, "todo", seed, crate::gen::Profile::Mixed)
+    let mut rng = Rng::new(seed);
+    let mut cfg = RunCfg::default();
+    // no automatic flushing: bags stay local until the program says so
+    cfg.max_objects = 64;
+    cfg.manual_interval = 64;
+    cfg.roots = 4;
+    cfg.wroots = 1;
+    cfg.strategy = 0;
+    cfg.p_switch = *rng.pick(&[0.0, 0.02, 0.1]);
+    cfg.start_epoch = match rng.below(8) {
+        0 => rng.below(4),
+        1 => (1u64 << 20) + rng.below(16),
+        2 => (1u64 << 40) + rng.below(16),
+        _ => rng.below(48),
+    };
+    let total = 6 + rng.below(66) as u32; // ticker rounds
+    let t_f = rng.below(total as u64) as u32;
+    let t_b = rng.below((t_f + 5).min(total) as u64 + 1) as u32;
+    let role = rng.below(7).min(5);
+    // setup: G (class 1) -> P (class 2) -> C (class 3); extra owners of P in ROOT[0], of C in ROOT[2]; G in ROOT[1]
+    let setup = vec![
+        o(K::New, 0, NONE_SLOT, 1, 0),
+        o(K::New, 1, NONE_SLOT, 2, 0),
+        o(K::New, 2, NONE_SLOT, 3, 0),
+        o(K::Pin, 0, 0, 0, 0),
+        o(K::Clone, 2, 3, 0, 0),
+        o(K::Store, 20, 3, 0, 0),  // ROOT[2] <- C (extra owner of C)
+        o(K::Store, 110, 2, 0, 0), // P.next[0] <- C
+        o(K::Clone, 1, 3, 0, 0),
+        o(K::Store, 0, 3, 0, 0),   // ROOT[0] <- P (extra owner of P)
+        o(K::Store, 100, 1, 0, 0), // G.next[0] <- P
+        o(K::Store, 10, 0, 0, 0),  // ROOT[1] <- G
+        o(K::New, 4, NONE_SLOT, 4, 0), // C2 (class 4), only used by the link-younger role
+        o(K::Store, 30, 4, 0, 0),      // ROOT[3] <- C2
+        o(K::Unpin, 0, 0, 0, 0),
+    ];
+    let mut threads = vec![ThreadProg::new(0, setup)];
+    threads[0].name = "setup".into();
+    // ticker: one round per tick, signalling 30+i after round i
+    let mut tick = Vec::new();
+    for i in 0..total {
+        tick.extend(ticker_ops(1));
+        tick.push(o(K::Signal, 30 + i, 0, 0, 0));
+    }
+    tick.extend(ticker_ops(8));
+    let mut t = ThreadProg::new(1, tick);
+    t.name = "ticker".into();
+    threads.push(t);
+    // A: releases G early (deferred attempt sits in A's local bag), flushes at tF
+    let mut a = vec![o(K::Pin, 0, 0, 0, 0), o(K::Store, 10, NONE_SLOT, 0, 0), o(K::Unpin, 0, 0, 0, 0), o(K::Await, 30 + t_f, 0, 0, 0), o(K::Pin, 0, 0, 0, 0), o(K::Flush, 0, 0, 0, 0), o(K::Unpin, 0, 0, 0, 0)];
+    if rng.chance(0.3) {
+        a.insert(0, o(K::Await, 30 + rng.below(t_f as u64 + 1) as u32, 0, 0, 0));
+    }
+    let mut t = ThreadProg::new(1, a);
+    t.name = "release-grandparent".into();
+    threads.push(t);
+    // B: writes the stamp(s) under test at tB
+    let mut b = vec![o(K::Await, 30 + t_b, 0, 0, 0), o(K::Pin, 0, 0, 0, 0)];
+    match role {
+        0 => b.push(o(K::Store, 0, NONE_SLOT, 0, 0)), // P's own stamp (drops P's extra owner)
+        1 => b.push(o(K::Store, 20, NONE_SLOT, 0, 0)), // C's own stamp
+        2 => {
+            // link P->C rewritten through P's extra owner, then both extra owners dropped
+            b.extend([o(K::Load, 0, 0, 0, 0), o(K::Load, 200, 0, 1, 0), o(K::Counted, 1, 0, 0, 0), o(K::Store, 200, 0, 0, 0), o(K::Store, 0, NONE_SLOT, 0, 0)]);
+        }
+        3 => {
+            // link rewritten by swap
+            b.extend([o(K::Load, 0, 0, 0, 0), o(K::Load, 200, 0, 1, 0), o(K::Counted, 1, 0, 0, 0), o(K::Swap, 200, 0, 0, 0), o(K::DropRc, 0, 0, 0, 0), o(K::Store, 0, NONE_SLOT, 0, 0)]);
+        }
+        4 => {
+            b.push(o(K::Store, 0, NONE_SLOT, 0, 0));
+            b.push(o(K::Store, 20, NONE_SLOT, 0, 0));
+        }
+        _ => {
+            // link strictly younger than the parent's own stamp: a writer that holds a Snapshot
+            // of P rewrites P->C one epoch *after* P's last owner was dropped (signal 28)
+            b = vec![o(K::Await, 28, 0, 0, 0), o(K::Pin, 0, 0, 0, 0), o(K::Store, 0, NONE_SLOT, 0, 0)];
+        }
+    }
+    b.push(o(K::Unpin, 0, 0, 0, 0));
+    if role == 5 {
+        let t_w = (t_f + rng.below(5) as u32).saturating_sub(1).min(total.saturating_sub(2));
+        let w = vec![
+            // take a counted reference to C2 early; its other owner (ROOT[3]) is dropped early too,
+            // so C2's own stamp is old when the link to it is written
+            o(K::Pin, 0, 0, 0, 0),
+            o(K::Load, 30, 0, 2, 0),
+            o(K::Counted, 2, 1, 0, 0),
+            o(K::Store, 30, NONE_SLOT, 0, 0),
+            o(K::Unpin, 0, 0, 0, 0),
+            o(K::Await, 30 + t_w, 0, 0, 0),
+            o(K::Pin, 0, 0, 0, 0),
+            o(K::Load, 0, 0, 0, 0),
+            o(K::Signal, 28, 0, 0, 0),
+            o(K::Await, 30 + t_w + 1, 0, 0, 0),
+            o(K::Store, 200, 1, 0, 0),
+            o(K::Unpin, 0, 0, 0, 0),
+        ];
+        let mut t = ThreadProg::new(1, w);
+        t.name = "link-writer".into();
+        threads.push(t);
+    }
+    let mut t = ThreadProg::new(1, b);
+    t.name = "stamp-writer".into();
+    threads.push(t);
+    // the other extra owners go early (old stamps) or late (after the cascade)
+    let early = rng.chance(0.6);
+    let mut c = vec![];
+    if !early {
+        c.push(o(K::Await, 30 + (t_f + 6).min(total - 1), 0, 0, 0));
+    }
+    c.extend([o(K::Pin, 0, 0, 0, 0), o(K::Store, 20, NONE_SLOT, 0, 0), o(K::Store, 0, NONE_SLOT, 0, 0), o(K::Unpin, 0, 0, 0, 0)]);
+    let mut t = ThreadProg::new(if early && role != 1 && role != 4 { 1 } else { 2 }, c);
+    t.name = "other-owners".into();
+    if early {
+        // only the owner B does not handle
+        t.ops = match role {
+            0 | 2 | 3 | 5 => vec![o(K::Pin, 0, 0, 0, 0), o(K::Store, 20, NONE_SLOT, 0, 0), o(K::Unpin, 0, 0, 0, 0)],
+            1 => vec![o(K::Pin, 0, 0, 0, 0), o(K::Store, 0, NONE_SLOT, 0, 0), o(K::Unpin, 0, 0, 0, 0)],
+            _ => vec![],
+        };
+        t.phase = 1;
+    }
+    threads.push(t);
+    cfg.step_cap = 4_000_000;
+    RunDesc {
+        prop: prop.to_string(),
+        family: "agesweep".into(),
+        seed,
+        cfg,
+        threads,
+        params: J::obj().set("rounds", total).set("flush_at_round", t_f).set("stamp_at_round", t_b).set("role", ["parent-own", "child-own", "link-store", "link-swap", "both-own", "link-younger"][role as usize]).set("others_early", early),
+        schedule: None,
+        buggify_script: None,
+    }
 }
